@@ -366,35 +366,50 @@ def run(ctx, col: Collector):
                     env[n.targets[0].id] = n.value
                 elif isinstance(n, ast.AnnAssign) and isinstance(n.target, ast.Name) and n.value is not None:
                     env[n.target.id] = n.value
-            # join of cls.render(i)
-            if not (isinstance(v, ast.Call) and isinstance(v.func, ast.Attribute) and v.func.attr == 'join'
-                    and isinstance(v.func.value, ast.Constant) and isinstance(v.func.value.value, str) and len(v.args) == 1):
-                col.bad('C16-compose', f'{rc.name}.render_db:join', f'render_db returns `{norm(v)}`, not a separator join of '
-                        f'element renderings (post-processing would break verbatim inclusion)', node=rets[0], file=m.file)
+            # the returned text, evaluated abstractly on every path (sa/strval.py): nothing but element renderings and separators, every element rendered through cls
+            import re as _re
+            from ..strval import skeleton_paths, show_labelled, _MARK
+            sks = skeleton_paths(m.node, unroll=1)
+            if not sks:
+                raise Unrecognised(f'{rc.name}.render_db: no returning path could be followed', m.node)
+            verdict = {'literal': None, 'recv': None, 'unknown': None, 'sep': None}
+            n_holes = 0
+            for _, alt, _, exprs in sks:
+                lit = _MARK.sub('', alt)
+                if lit.strip():
+                    verdict['literal'] = verdict['literal'] or lit.strip()[:40]
+                if lit and '\n' not in lit:
+                    verdict['sep'] = verdict['sep'] or lit
+                for mk in _MARK.finditer(alt):
+                    kind, label = mk.group(1), mk.group(2)
+                    n_holes += 1
+                    e = exprs.get(label)
+                    calls = [c for c in ast.walk(e) if isinstance(c, ast.Call) and isinstance(c.func, ast.Attribute) and c.func.attr == 'render'] if e is not None else []
+                    if kind == '\x02' or not calls:
+                        verdict['unknown'] = verdict['unknown'] or (label or '?')
+                        continue
+                    for c in calls:
+                        if not (isinstance(c.func.value, ast.Name) and c.func.value.id == 'cls'):
+                            verdict['recv'] = verdict['recv'] or norm(c.func.value)
+            if verdict['literal']:
+                col.bad('C16-compose', f'{rc.name}.render_db:join', f'render_db adds text of its own (`{verdict["literal"]}`) around the element renderings: the database text is '
+                        f'not the element texts joined verbatim', node=rets[0], file=m.file)
                 continue
-            col.check('\n' in v.func.value.value, 'C16-compose', f'{rc.name}.render_db:separator',
-                      'elements are separated by line breaks', f'separator {v.func.value.value!r} has no line break',
-                      node=rets[0], file=m.file)
-            gen = v.args[0]
-            if isinstance(gen, ast.Name) and gen.id in env:
-                gen = env[gen.id]
-            if not isinstance(gen, (ast.GeneratorExp, ast.ListComp)) or len(gen.generators) != 1:
-                raise Unrecognised('joined operand is not a single-generator comprehension', rets[0])
-            elt = gen.elt
-            g = gen.generators[0]
-            ok = isinstance(elt, ast.Call) and isinstance(elt.func, ast.Attribute) and elt.func.attr == 'render' \
-                and len(elt.args) == 1 and isinstance(g.target, ast.Name) and norm(elt.args[0]) == g.target.id
-            if not ok:
-                col.bad('C16-compose', f'{rc.name}.render_db:element', f'joined element is `{norm(elt)}`, not <cls>.render(item): '
-                        f'element text would not appear verbatim', node=rets[0], file=m.file)
+            if verdict['unknown'] and not n_holes - 0:
+                raise Unrecognised('render_db returns text this rule cannot follow', rets[0])
+            if verdict['unknown']:
+                col.unk('C16-compose', f'{rc.name}.render_db:element', f'part of the database text (`{verdict["unknown"][:60]}`) is not visibly an element rendering', node=rets[0],
+                        file=m.file)
                 continue
-            recv = elt.func.value
-            col.check(isinstance(recv, ast.Name) and recv.id == 'cls', 'C16-compose', f'{rc.name}.render_db:dispatch-receiver',
-                      'elements are rendered through cls (the configured class)',
-                      f'render_db renders elements through `{norm(recv)}` instead of `cls`: a configured subclass of '
-                      f'{rc.name} is bypassed at database level while elements still use it', node=rets[0], file=m.file)
-            col.check(not g.ifs, 'C16-compose', f'{rc.name}.render_db:no-filter', 'no element is filtered out at join time',
-                      'the join filters elements', node=rets[0], file=m.file)
+            col.ok('C16-compose', f'{rc.name}.render_db:join', 'the database text consists of element renderings and separators only', node=rets[0], file=m.file)
+            col.check(verdict['sep'] is None, 'C16-compose', f'{rc.name}.render_db:separator', 'elements are separated by line breaks',
+                      f'separator {verdict["sep"]!r} has no line break', node=rets[0], file=m.file)
+            col.check(verdict['recv'] is None, 'C16-compose', f'{rc.name}.render_db:dispatch-receiver', 'elements are rendered through cls (the configured class)',
+                      f'render_db renders elements through `{verdict["recv"]}` instead of `cls`: a configured subclass of {rc.name} is bypassed at database level while '
+                      f'elements still use it', node=rets[0], file=m.file)
+            filt_join = [c for c in ast.walk(m.node) if isinstance(c, (ast.GeneratorExp, ast.ListComp)) and any(isinstance(x, ast.Call) and isinstance(x.func, ast.Attribute)
+                         and x.func.attr == 'render' for x in ast.walk(c.elt)) and any(g.ifs for g in c.generators)]
+            col.check(not filt_join, 'C16-compose', f'{rc.name}.render_db:no-filter', 'no element is filtered out at join time', 'the join filters elements', node=rets[0], file=m.file)
             # collections read
             reads: Dict[str, int] = {}
             for n in walk_no_nested(m.node):
